@@ -82,6 +82,8 @@ func genC12(t *rapid.T) (*C12Case, []string) {
 	// (runtime faults go here), with multi-byte text before the fault
 	lead := []*ast.Node{
 		ast.Print(ast.Str("héllo → 日本")),
+		// (an earlier bare $: a fault anchored at a later $ must not be reported here)
+		ast.ExprS(ast.Set(ast.Id("c12d"), ast.Is(ast.Dollar(), "null"))),
 		ast.ExprS(ast.Set(ast.Id("ê"), ast.Num("1"))),
 		ast.Print(ast.Id("ê"), ast.Str("ü")),
 		ast.ExprS(ast.Set(ast.Id("lead"), ast.Num("2"))),
